@@ -44,11 +44,65 @@ Theorem C06_connected_sound :
   /\ (forall (sp : spec) (cs : list comp) (c : comp) (st : status),
          In (c, st) (r_comps (connect_run sp cs)) -> st = CONNECTED ->
          forall it, In it (declared sp c) -> done (r_world (connect_run sp cs)) it = true).
-Proof.
-  split.
-  - intros sp c a w w' H. exact (proj1 (proj1 (proj2 (progress_iff sp c a w w' CONNECTED H))) eq_refl).
-  - exact run_sound.
-Qed.
+Proof. exact connected_sound. Qed.
+
+
+(** The report of a failed connect is exact (components listed once, slots not shared): the loop
+    ends normally only with EVERY declared exchange of every component done; otherwise the
+    circular-coupling error lists, in list order, exactly the positions of the components that
+    still have an outstanding declared exchange ([stuck_idx], characterised below), and at least one.
+    This is the proved part of [C06_fixpoint_full]. *)
+Theorem C06_fixpoint_partial :
+  forall (sp : spec) (cs : list comp),
+    disjoint_slots cs ->
+    let r := connect_run sp cs in
+    (r_out r = Success ->
+     forall c, In c cs -> forall it, In it (declared sp c) -> done (r_world r) it = true)
+    /\ (forall L, r_out r = Circular L -> L = stuck_idx sp (r_world r) 0 cs /\ L <> []).
+Proof. exact run_stall_set. Qed.
+
+(** [n] is listed iff the [n]-th component has an outstanding declared exchange *)
+Theorem C06_stuck_idx_exact :
+  forall (sp : spec) (w : world) (cs : list comp) (n : nat),
+    In n (stuck_idx sp w 0 cs) <->
+    exists c, nth_error cs n = Some c /\ exists it, In it (declared sp c) /\ done w it = false.
+Proof. exact stuck_idx_exact. Qed.
+
+(** FULL fixed-point statement (NOT proved in Coq; its content is checked on every run by the
+    declarative least-fixed-point monitor of harness/props/c06.py against the real finam):
+    for a well-formed setup the final set of done items is the least fixed point of the
+    derivation rules [step]; if every declared item is derivable (dependencies acyclic) the loop
+    ends with Success, otherwise the error lists exactly the components owning an underivable item. *)
+Definition C06_fixpoint_full : Prop :=
+  forall (sp : spec) (cs : list comp),
+    wf_setup sp cs ->
+    let r := connect_run sp cs in
+    (forall it, done (r_world r) it = true <-> derivable sp cs it)
+    /\ ((forall c it, In c cs -> In it (declared sp c) -> derivable sp cs it) -> r_out r = Success)
+    /\ (forall L, r_out r = Circular L ->
+                  forall n, In n L <-> exists c, nth_error cs n = Some c
+                                                 /\ exists it, In it (declared sp c) /\ ~ derivable sp cs it).
+
+(** Initial data, for EVERY setup and whatever the outcome: an output whose data was pushed holds
+    exactly the publications of [pushed_entries]: nothing without targets, one untimed entry when
+    static, one entry at the composition start when the time [t] of its exchanged info equals the
+    start, else one at the composition start and one at [t] - all carrying the payload the producer
+    provides; and every pulled initial value is the payload provided by the producer of the source. *)
+Theorem C06_initial_data :
+  forall (sp : spec) (cs : list comp),
+    let w := r_world (connect_run sp cs) in
+    (forall o, o_dpushed (wo w o) = true ->
+               exists t p, o_hinfo (wo w o) = Some t
+                           /\ (exists ds, os_prov_data (sp_out sp o) = Some (ds, p))
+                           /\ o_data (wo w o) =
+                              (if (nconn sp o =? 0) then []
+                               else if os_static (sp_out sp o) then [(None, p)]
+                               else if (t =? sp_start sp)%Z then [(Some t, p)]
+                               else [(Some (sp_start sp), p); (Some t, p)]))
+    /\ (forall o, o_dpushed (wo w o) = false -> o_data (wo w o) = [])
+    /\ (forall i p, in_data (wi w i) = Some p ->
+                    exists ds, os_prov_data (sp_out sp (is_src (sp_in sp i))) = Some (ds, p)).
+Proof. exact initial_data. Qed.
 
 (** Non-vacuity.  A ring of three components, each pulling its predecessor's initial data and
     publishing its own only after the pull, with one breaker (component 1 publishes at once);
@@ -77,6 +131,20 @@ Example C06_nonvacuous_stall :
   /\ done (r_world r) (IOutInfo 0) = true /\ done (r_world r) (IDataPushed 0) = false.
 Proof. vm_compute. repeat split; auto. Qed.
 
+Example C06_nonvacuous_wf : wf_setup (ex_sp false) ex_comps /\ disjoint_slots ex_comps.
+Proof.
+  assert (D : disjoint_slots ex_comps) by (split; simpl; repeat constructor; simpl; intuition discriminate).
+  split; [|exact D]. split; [exact D|]. split; [simpl; repeat constructor; simpl; intuition discriminate|]. split.
+  - intros i. unfold own_in. simpl. tauto.
+  - intros c Hc _. simpl in Hc. intuition (subst; reflexivity).
+Qed.
+
+Example C06_nonvacuous_stall_set :
+  let r := connect_run (ex_sp false) ex_comps in
+  stuck_idx (ex_sp false) (r_world r) 0 ex_comps = [0; 1; 2]
+  /\ o_dpushed (wo (r_world (connect_run (ex_sp true) ex_comps)) 0) = true.
+Proof. vm_compute. split; reflexivity. Qed.
+
 (** a single call that makes progress without completing, from the initial state *)
 Example C06_nonvacuous_call :
   exists w', helper_connect (ex_sp true) (mk_comp [1] [1] true) (prov_args (ex_sp true) (init_world (ex_sp true)))
@@ -87,3 +155,6 @@ Proof. eexists. vm_compute. repeat split. Qed.
 Print Assumptions C06_terminates.
 Print Assumptions C06_progress_iff.
 Print Assumptions C06_connected_sound.
+Print Assumptions C06_fixpoint_partial.
+Print Assumptions C06_stuck_idx_exact.
+Print Assumptions C06_initial_data.
